@@ -162,11 +162,10 @@ def s4(ctx, rep):
     pr = ctx.nodes(ob, ctx.sel_call(selfcall="_promote_trials_at_rung_complete"), "may", 0)
     from .common import dom_guard
 
+    from .c05 import rung_complete
+
     def _complete(at):
-        return any(a[0] == "le" and a[1].startswith("len(") and a[2] == "self._first_free_pos" for a in at) and (
-            any(a[0] == "eq" and a[3] is True and {a[1], a[2]} == {"0", "self.num_pending_slots()"} for a in at) or
-            any(a[0] == "le" and a[1] == "self.num_pending_slots()" and a[2] == "0" for a in at) or
-            any(a[0] == "truth" and a[1] == "self.num_pending_slots()" and a[2] is False for a in at))
+        return all(rung_complete(at))
     ok = bool(pr) and all(_complete(set(dom_guard(ctx, ob, n)) | set(ctx.facts(ob).at(n))) for n in pr)
     rep.put(ok, "S4", "guarded_by", "SynchronousBracket.on_result: promotion (and release of checkpoints) only when the rung is complete", ob, None, "")
 
